@@ -596,11 +596,17 @@ func init() {
 	reg("(*sync.WaitGroup).Add", func(p *Path, fn *ssa.Function, a []Value) Value {
 		st := p.mutex(a[0].(*Value))
 		st.readers += p.concInt(a[1].(*Term))
+		if st.readers < 0 {
+			p.goPanicStr("sync: negative WaitGroup counter")
+		}
 		return nil
 	})
 	reg("(*sync.WaitGroup).Done", func(p *Path, fn *ssa.Function, a []Value) Value {
 		st := p.mutex(a[0].(*Value))
 		st.readers--
+		if st.readers < 0 {
+			p.goPanicStr("sync: negative WaitGroup counter")
+		}
 		return nil
 	})
 	reg("(*sync.WaitGroup).Wait", func(p *Path, fn *ssa.Function, a []Value) Value {
